@@ -132,6 +132,12 @@ func VerifSolve3(coeff []float64) []float64 { return geom.VerifSolve3(coeff) }
 // VerifMonitorIdle reports whether the package-level monitor state is quiescent.
 func VerifMonitorIdle() bool { return imonitor.VerifIdle() }
 
+// VerifChanMonitor returns the library's own channel monitor (internal/monitor.NewFilteredChan, which only code inside
+// this module can construct) with a filter that lets every event through.
+func VerifChanMonitor(c chan any) imonitor.Monitor {
+	return imonitor.NewFilteredChan(c, func(int, string, string) bool { return true })
+}
+
 // VerifDefaultsFingerprint renders the package-level default options, so that a change to them can be noticed.
 func VerifDefaultsFingerprint() string {
 	o := defaultOptions
